@@ -114,14 +114,11 @@ def renderV : Nat → Heap → RS → HV → RS
       | some (.mapc es) => (renderEntries f h r es).emit ")"
       | _ => r.emit "?"
   | f + 1, h, r, .sl a len =>
-    match lookup r.seen a with
-    | some k => r.emit s!"l#{k}:{len}"
-    | none =>
-      let k := r.seen.length
-      let r := { r with seen := (a, k) :: r.seen }.emit s!"l#{k}:{len}=("
-      match h[a]? with
-      | some (.arr es) => (renderList f h r es).emit ")"
-      | _ => r.emit "?"
+    -- slices have no identity of their own in the rendering (the copier gives every slice value a
+    -- fresh backing array); the whole capacity is shown
+    match h[a]? with
+    | some (.arr es) => (renderList f h (r.emit s!"l:{len}=(") es).emit ")"
+    | _ => r.emit "l?"
   | f + 1, h, r, .st fs => (renderFs f h (r.emit "{") fs true).emit "}"
   | f + 1, h, r, .ar es => (renderFs f h (r.emit "[") es false).emit "]"
   | f + 1, h, r, .ifc d => renderV f h (r.emit "i") d
